@@ -126,7 +126,7 @@ fn check(plan: &Plan, out: &RunOut) -> CheckOut {
     // no stray datagrams left in client sockets (duplicates)
     for cl in &out.ctx.closed_loop {
         if let Some(&sid) = out.ctx.socks.get(&cl.sock) {
-            let extra = w.socks[sid].queue.len();
+            let extra = w.socks[sid].unread_at_end.unwrap_or(0);
             if extra > 0 && plan.world.faults.s2c_dup == 0 && plan.world.faults.c2s_dup == 0 {
                 co.violate("C18", "duplicate_response", "C18|client_received_extra".into(), format!("client {} has {} unread extra datagram(s)", cl.sock, extra));
             }
